@@ -1,14 +1,202 @@
-import Hive.Model.C12aShrink
-import Hive.Model.C12aRandomMap
-import Hive.Model.C12aHeap
-import Hive.Model.C12aQueue
-import Hive.Model.C12aRing
-import Hive.Model.C12aStack
+import Hive.Proofs.C12aShrink
+import Hive.Proofs.C12aRandomMap
+import Hive.Proofs.C12aQueue
+import Hive.Proofs.C12aRing
+import Hive.Proofs.C12aStack
 /-!
-# C12 (part A) — containers are equivalent to their abstract models
+# C12 (part A) — the remaining containers are equivalent to their abstract models
 
-Property theorems only (work in progress).
+Property theorems only.  Every theorem quantifies over *every* operation history (`ops : List Op`)
+and every option setting (shrink rule / thresholds, capacity > 0, ascending / descending).
+Models: `Hive/Model/C12a*.lean`; helper lemmas: `Hive/Proofs/C12a*.lean`.
 -/
 namespace Hive.C12a
+
+/-! ## ShrinkingMap — a plain map whose shrinking is unobservable -/
+
+/-- **ShrinkingMap ≡ plain map.**  For every shrink rule `sh` (any function of the deletion counter
+and the size — in particular every setting of the ratio and count thresholds) and every history,
+the answers are those of the plain map and the stored map is the plain map's. -/
+theorem C12_shrink_refines_plain_map (sh : Nat → Nat → Bool) (ops : List Shrink.Op) :
+    (Shrink.run sh Shrink.init ops).2 = (Shrink.specRun [] ops).2 ∧
+    (Shrink.run sh Shrink.init ops).1.m = (Shrink.specRun [] ops).1 :=
+  Shrink.run_refines sh Shrink.init ops
+
+/-- **Shrinking is unobservable**: two maps with different shrink rules answer every history
+identically and hold the same bindings afterwards. -/
+theorem C12_shrink_rule_unobservable (sh sh' : Nat → Nat → Bool) (ops : List Shrink.Op) :
+    (Shrink.run sh Shrink.init ops).2 = (Shrink.run sh' Shrink.init ops).2 ∧
+    (Shrink.run sh Shrink.init ops).1.m = (Shrink.run sh' Shrink.init ops).1.m := by
+  obtain ⟨a1, a2⟩ := Shrink.run_refines sh Shrink.init ops
+  obtain ⟨b1, b2⟩ := Shrink.run_refines sh' Shrink.init ops
+  exact ⟨a1.trans b1.symm, a2.trans b2.symm⟩
+
+/-- The same for the rule of the code, `shouldShrink`, under any two option settings. -/
+theorem C12_shrink_thresholds_unobservable (o o' : Shrink.Opts) (ops : List Shrink.Op) :
+    (Shrink.run (Shrink.shouldShrink o) Shrink.init ops).2 =
+      (Shrink.run (Shrink.shouldShrink o') Shrink.init ops).2 :=
+  (C12_shrink_rule_unobservable _ _ ops).1
+
+/-- The abstract model really is a map: keys stay distinct along every history, a lookup after a
+store / removal follows the map laws, and `Size` counts the keys. -/
+theorem C12_plain_map_laws :
+    (∀ ops : List Shrink.Op, AL.NoDupKeys (Shrink.specRun [] ops).1) ∧
+    (∀ (m : AL Nat) (k k' v : Nat), AL.get (AL.set m k v) k' = if k = k' then some v else AL.get m k') ∧
+    (∀ (m : AL Nat) (k k' : Nat), AL.get (AL.del m k) k' = if k = k' then none else AL.get m k') ∧
+    (∀ (m : AL Nat), m.length = (AL.keys m).length) := by
+  refine ⟨?_, AL.get_set, AL.get_del, by intro m; simp [AL.keys]⟩
+  intro ops
+  suffices h : ∀ m : AL Nat, AL.NoDupKeys m → AL.NoDupKeys (Shrink.specRun m ops).1 from
+    h [] (by simp [AL.NoDupKeys, AL.keys])
+  induction ops with
+  | nil => intro m h; exact h
+  | cons op ops ih => intro m h; exact ih _ (Shrink.spec_nodup h op)
+
+/-- What the counter is for: in every reachable state the slots allocated for the Go map (ghost
+`alloc`, which only a rebuild can lower) exceed the live entries by at most `deletedKeys`. -/
+theorem C12_shrink_garbage_le_deleted (sh : Nat → Nat → Bool) (ops : List Shrink.Op) :
+    let s := (Shrink.run sh Shrink.init ops).1
+    s.m.length ≤ s.alloc ∧ s.alloc ≤ s.m.length + s.deleted := by
+  intro s
+  have h : Shrink.Inv s := by
+    show Shrink.Inv (Shrink.run sh Shrink.init ops).1
+    rw [Shrink.run_fst]; exact Shrink.inv_final sh ops Shrink.inv_init
+  exact ⟨h.live, h.alloc⟩
+
+/-- With the ratio disabled and a count threshold `c > 0` (the code's rule), `deletedKeys` stays
+below `c` in every reachable state, so at most `c - 1` dead slots are ever kept. -/
+theorem C12_shrink_count_threshold_bounds_garbage (c : Nat) (hc : 0 < c) (ops : List Shrink.Op) :
+    let s := (Shrink.run (Shrink.shouldShrink ⟨0, 1, c⟩) Shrink.init ops).1
+    s.deleted < c ∧ s.alloc < s.m.length + c := by
+  intro s
+  have hd : s.deleted < c := by
+    show (Shrink.run _ Shrink.init ops).1.deleted < c
+    rw [Shrink.run_fst]
+    suffices h : ∀ t : Shrink.St, t.deleted < c →
+        (Shrink.final (Shrink.shouldShrink ⟨0, 1, c⟩) t ops).deleted < c from h _ (by simpa [Shrink.init] using hc)
+    induction ops with
+    | nil => intro t h; exact h
+    | cons op ops ih =>
+      intro t h
+      exact ih _ (Shrink.deleted_lt_step hc (Shrink.shouldShrink_count c hc) h op)
+  have ha : s.alloc ≤ s.m.length + s.deleted :=
+    (C12_shrink_garbage_le_deleted (Shrink.shouldShrink ⟨0, 1, c⟩) ops).2
+  exact ⟨hd, by omega⟩
+
+example : (Shrink.run (Shrink.shouldShrink ⟨0, 1, 2⟩) Shrink.init
+    [.set 1 10, .set 2 20, .set 3 30, .del 1, .del 2, .get 3, .size, .pop 0, .pop 0]).2
+    = [.bool true, .bool true, .bool true, .bool true, .bool true, .val (some 30), .nat 1,
+       .popped (some (3, 30)), .popped none] := by decide
+
+/-! ## RandomMap — a map whose random picks are members -/
+
+/-- **Index invariant** in every reachable state: the back-index of every entry is the position of
+its key in the dense key slice, every slot of the slice belongs to an entry, keys are distinct. -/
+theorem C12_rmap_index_invariant (ops : List RMap.Op) : RMap.Inv (RMap.final RMap.init ops) :=
+  RMap.inv_final ops RMap.inv_init
+
+/-- **RandomMap ≡ plain map with a nondeterministic picker.**  Along every history — for every
+outcome of the random source, which is an argument of the random operations — each answer is one the
+abstract model `RMap.specOk` allows: `Get/Has/Delete/Size/Values/ForEach` answer exactly as the plain
+map, `Keys` is a permutation of the map's keys, `RandomKey`/`RandomEntry` return a member (nothing iff
+empty) and `RandomUniqueEntries(n)` returns the values of `min(n, size)` pairwise distinct keys. -/
+theorem C12_rmap_refines_plain_map (ops : List RMap.Op) :
+    RMap.Allowed [] ops (RMap.run RMap.init ops).2 :=
+  RMap.run_allowed RMap.inv_init ops
+
+/-- Every random pick is a member, for every random index. -/
+theorem C12_rmap_pick_is_member (ops : List RMap.Op) (c : Nat) :
+    let s := RMap.final RMap.init ops
+    (∀ k, RMap.randKey s c = some k → RMap.get s k ≠ none) ∧
+    (RMap.randKey s c = none ↔ s.raw.length = 0) ∧
+    (∀ v, RMap.randEntry s c = some v → ∃ k, RMap.get s k = some v) := by
+  intro s
+  have h : RMap.Inv s := C12_rmap_index_invariant ops
+  obtain ⟨k1, k2⟩ := RMap.randKey_spec h c
+  obtain ⟨_, e2⟩ := RMap.randEntry_spec h c
+  refine ⟨?_, ?_, ?_⟩
+  · intro k hk
+    have := k2 k hk
+    rw [RMap.get_abs, Ne, AL.get_eq_none_iff]; exact fun hn => hn this
+  · rw [k1, RMap.absm, AL.length_mapVal]
+  · intro v hv; obtain ⟨k, hk⟩ := e2 v hv; exact ⟨k, by rw [RMap.get_abs]; exact hk⟩
+
+/-- `RandomUniqueEntries(n)` returns `min(n, size)` entries of pairwise distinct keys, for every
+outcome `perm` of `rand.Perm(len(keys))`. -/
+theorem C12_rmap_unique_entries (ops : List RMap.Op) (n : Nat) (perm : List Nat)
+    (hp : perm.Perm (List.range (RMap.final RMap.init ops).keys.length)) :
+    let s := RMap.final RMap.init ops
+    ∃ ks : List Nat, ks.Nodup ∧ (∀ k ∈ ks, RMap.get s k ≠ none) ∧ ks.length = min n s.raw.length ∧
+      RMap.randUnique s n perm = ks.map (fun k => (RMap.get s k).getD 0) := by
+  intro s
+  have h : RMap.Inv s := C12_rmap_index_invariant ops
+  obtain ⟨ks, a, b, c, d⟩ := RMap.randUnique_spec h n perm hp
+  refine ⟨ks, a, ?_, ?_, ?_⟩
+  · intro k hk; rw [RMap.get_abs, Ne, AL.get_eq_none_iff]; exact fun hn => hn (b k hk)
+  · rw [c, RMap.absm, AL.length_mapVal]
+  · rw [d]; apply List.map_congr_left; intro k _; rw [RMap.get_abs]
+
+/-- Non-vacuity: deleting an inner key, then the last one, then picking with a permutation. -/
+example :
+    let s := RMap.final RMap.init [.set 1 100, .set 2 200, .set 3 300, .del 1, .set 4 400, .del 4]
+    s.keys = [3, 2] ∧ RMap.randUnique s 1 [1, 0] = [200] ∧ RMap.randKey s 5 = some 2 ∧
+      [1, 0].Perm (List.range s.keys.length) := by
+  refine ⟨by decide, by decide, by decide, ?_⟩
+  exact List.Perm.swap 0 1 []
+
+/-! ## Queue — bounded FIFO -/
+
+/-- **Queue ≡ bounded FIFO** for every capacity `c > 0` and every history: `Offer` drops when
+full, `ForceOffer` evicts the oldest, `Poll` returns the oldest. -/
+theorem C12_queue_bounded_fifo (c : Nat) (hc : 0 < c) (ops : List Queue.Op) :
+    (Queue.run (Queue.init c) ops).2 = (Queue.specRun ⟨[], c⟩ ops).2 ∧
+    Queue.absq (Queue.run (Queue.init c) ops).1 = (Queue.specRun ⟨[], c⟩ ops).1.q := by
+  obtain ⟨h1, h2⟩ := Queue.run_refines _ _ (Queue.rel_init c hc) ops
+  exact ⟨h1, h2.2.2.symm⟩
+
+/-- The ring indices stay consistent: `write = (read + size) mod capacity`, `size ≤ capacity`. -/
+theorem C12_queue_ring_invariant (c : Nat) (hc : 0 < c) (ops : List Queue.Op) :
+    Queue.Inv (Queue.run (Queue.init c) ops).1 :=
+  (Queue.run_refines _ _ (Queue.rel_init c hc) ops).2.1
+
+example : (Queue.run (Queue.init 2) [.offer 1, .offer 2, .offer 3, .force 4, .poll, .poll, .poll]).2
+    = [.bool true, .bool true, .bool false, .val (some 1), .val (some 2), .val (some 4), .val none] := by
+  decide
+
+/-! ## RingBuffer — overwrite-oldest ring -/
+
+/-- **RingBuffer ≡ history window** for every capacity `c > 0` and every history of `Add` and
+`ToSlice`: `ToSlice` returns the last `min(n, c)` added elements, newest first. -/
+theorem C12_ring_refines_window (c : Nat) (hc : 0 < c) (ops : List Ring.Op) :
+    (Ring.run (Ring.init c) ops).2 = (Ring.specRun ⟨[], c⟩ ops).2 :=
+  (Ring.run_refines _ _ (Ring.rel_init c hc) ops).1
+
+/-- The same, spelled out: after adding `xs` (in this order) to an empty ring of capacity `c > 0`,
+`ToSlice` is the reversed `xs` cut to `c`, hence of length `min(|xs|, c)`. -/
+theorem C12_ring_toSlice_last_min_n_cap (c : Nat) (hc : 0 < c) (xs : List Nat) :
+    Ring.toSlice (xs.foldl Ring.add (Ring.init c)) = xs.reverse.take c ∧
+    (Ring.toSlice (xs.foldl Ring.add (Ring.init c))).length = min xs.length c := by
+  suffices h : ∀ (s : Ring.St) (a : Ring.Spec), Ring.Rel s a →
+      Ring.Rel (xs.foldl Ring.add s) ⟨xs.reverse ++ a.hist, a.cap⟩ by
+    have r := h _ _ (Ring.rel_init c hc)
+    have e := Ring.toSlice_eq _ _ r
+    simp only [List.append_nil] at e
+    exact ⟨e, by rw [e]; simp [Nat.min_comm]⟩
+  induction xs with
+  | nil => intro s a r; simpa using r
+  | cons x xs ih =>
+    intro s a r
+    have := ih _ _ (Ring.rel_add s a r x)
+    simpa [List.foldl_cons, List.reverse_cons, List.append_assoc] using this
+
+example : Ring.toSlice ([1, 2, 3, 4, 5, 6, 7].foldl Ring.add (Ring.init 3)) = [7, 6, 5] := by decide
+
+/-! ## Stack — LIFO (both flavours are the same slice) -/
+
+/-- **Stack ≡ LIFO list** for every history. -/
+theorem C12_stack_lifo (ops : List Stack.Op) :
+    (Stack.run Stack.init ops).2 = (Stack.specRun [] ops).2 ∧
+    (Stack.run Stack.init ops).1.reverse = (Stack.specRun [] ops).1 :=
+  Stack.run_refines Stack.init ops
 
 end Hive.C12a
